@@ -346,3 +346,37 @@ VARIANTS += [
     V("c17-b2", "C17", "mab", "MAB.add_arm", _ADD_OLD, _ADD_OLD.replace(
         "self.arms.append(arm)", "new_arm = arm\nself.arms.append(new_arm)"), benign=True),
 ]
+
+# ---------------------------------------------------------------------------------------------------- C14
+VARIANTS += [
+    V("c14-m1", "C14", "clusters", "_Clusters.fit",
+      "self.rewards = self.lp_list[0]._get_binary_rewards(decisions, rewards)\n"
+      "for lp in self.lp_list:\n    lp.is_contextual_binarized = True",
+      "self.rewards = self.lp_list[0]._get_binary_rewards(decisions, rewards)", "R14.1",
+      why="cluster policies convert the stored rewards again"),
+    V("c14-m2", "C14", "neighbors", "_Neighbors._binarize_ts_rewards", "self.lp.is_contextual_binarized = False", "",
+      "R14.1", why="rewards of a later partial_fit are stored unconverted"),
+    V("c14-m3", "C14", "neighbors", "_Neighbors._uptake_new_arm",
+      "if binarizer and isinstance(self.lp, _ThompsonSampling):\n    self.lp.is_contextual_binarized = True", "",
+      "R14.1", why="binarizer of add_arm applied to stored rewards (the repaired defect)"),
+    V("c14-m4", "C14", "neighbors", "_Neighbors.fit",
+      "self.rewards = self._binarize_ts_rewards(decisions, rewards)",
+      "self._binarize_ts_rewards(decisions, rewards)\nself.rewards = rewards", "R14.1",
+      why="raw rewards stored although the flag says converted"),
+    V("c14-m5", "C14", "thompson", "_ThompsonSampling.partial_fit",
+      "rewards = self._get_binary_rewards(decisions, rewards)", "", "R14.1",
+      why="partial_fit of plain Thompson sampling skips the conversion"),
+    V("c14-m7", "C14", "simulator", "_NeighborsSimulator._get_nhood_predictions",
+      "nn_rewards = self.rewards[indices]", "nn_rewards = self.rewards[indices] if self.raw_rewards is None else "
+      "self.raw_rewards[indices]", "R14.1", why="simulator trains on the raw rewards with the flag set"),
+    V("c14-m8", "C14", "clusters", "_Clusters.partial_fit",
+      "for lp in self.lp_list:\n    lp.is_contextual_binarized = False\n"
+      "rewards = self.lp_list[0]._get_binary_rewards(decisions, rewards)",
+      "rewards = self.lp_list[0]._get_binary_rewards(decisions, rewards)", "R14.1",
+      why="second batch is not converted because the flag is still set"),
+    V("c14-b1", "C14", "neighbors", "_Neighbors._binarize_ts_rewards",
+      "rewards = self.lp._get_binary_rewards(decisions, rewards)",
+      "converted = self.lp._get_binary_rewards(decisions, rewards)\nrewards = converted", benign=True),
+    V("c14-b2", "C14", "thompson", "_ThompsonSampling.fit", "rewards = self._get_binary_rewards(decisions, rewards)",
+      "binary_rewards = self._get_binary_rewards(decisions, rewards)\nrewards = binary_rewards", benign=True),
+]
